@@ -107,6 +107,8 @@ func C13(c *Ctx) {
 	r.Rule("R13.4", "cache fill and purge: FlushDirtyData adds the dirty accounts to the account cache on every path; the cache entry of an account is removed when its creation is reverted; the cache is purged on rollback (C12 R12.2).")
 	r.Rule("R13.5", "snapshots: RevertToSnapshot reverts the changer to the index recorded for the found revision and truncates the valid revisions to that revision's position; Snapshot records the current changer length; wherever the revision counter is restarted (nextRevisionId = constant) the recorded revisions are truncated on the same path.")
 	r.Rule("R13.6", "tombstones survive the undo: an entry of an account's dirty set, once written in a block, is never removed again (no Delete / LoadAndDelete / CompareAndDelete on dirtyState in internal/ledger) - the undo record holds only the previous value, not whether the key was dirty before, so a removed entry exposes the layers below, which differ from the recorded value whenever that was itself an earlier write or deletion of the block; storageChange.revert stores the recorded previous value (nil included) into the dirty set on every path.")
+	r.Rule("R13.8", freshUndoText)
+	c.freshUndo("R13.8")
 	r.Rule("R13.7", "the undo of a transaction leaves the caches of earlier blocks alone: functions reachable from the stateChange.revert methods remove cache entries only from the account-record cache (the record a reverted creation may have caused to be cached); the storage and code caches hold the writes of flushed, not yet committed blocks and are dropped only by the rollback purge (R12.2).")
 	r.NotDecided = append(r.NotDecided, "LRU eviction behaviour; reopen; value-level equality over histories")
 
